@@ -174,6 +174,10 @@ def run(ctx):
         "handler configuration: `new W D C H` / stress mode H = 0 recording handler, 1 no RecoveryHandler option, 2 "
         "RecoveryHandler(nil), 3 handler that records and panics; the model has Cfg.handler (true for 0 and 3); the "
         "guard `defer Recovery(nil)` around a panicking handler is exercised, not modelled",
+        "panic values are abstracted in the model (a task returns or panics); the harness varies the value over ten kinds "
+        "and attributes handler calls to tasks by goroutine id, independently of the value and of the errs package",
+        "not judged, only transcribed (coverage.observations): a task calling runtime.Goexit, tasks submitting to their own "
+        "queue, Depth(math.MaxInt); Workers < 1 (default pool) is run but the bound running <= Workers is then not judged",
     ]
     ctx.assumptions += [
         "running tasks eventually finish and the Go scheduler does not stop while a goroutine can move (the liveness "
@@ -181,8 +185,18 @@ def run(ctx):
         "Submit is not called with nil and not called after (or concurrently with) Shutdown",
         "workers >= 1 (New replaces smaller values by 1+NumCPU); in-channel capacity >= 1",
     ]
+    import os, time
+    t0 = time.time()
+    phases = ctx.extra.setdefault("phase_seconds", {})
+
+    def mark(name, _t=[t0]):
+        phases[name] = round(time.time() - _t[0], 1)
+        _t[0] = time.time()
+
     ctx.lean(props=["Props.C15"], drivers=["drv_c15"])
+    mark("lean build + axiom audit (shared lock)")
     ctx.harness("./cmd/c15", overlay={"taskqueue/verif_incap.go": "c15_incap.go"})
+    mark("go build")
     _install(ctx)
     what = ("forced schedule: each line is followed by a wait for quiescence; outputs are the observed sets (st=started, "
             "fin=finished, rec=recovery-handler calls, sub=Submit calls returned, sd=Shutdown 0 not called/1 waiting/2 "
@@ -190,29 +204,80 @@ def run(ctx):
     thm = ("C15.conservation / exactly_once / running_le_workers / fifo / shutdown_after_all_done / panic_reported_once "
            "/ shutdown_returns (Props/C15.lean) hold for every reachable state of the model; on this forced schedule the "
            "real queue does not reach the quiescent state the model predicts")
-    ctx.diff(area="forced", driver="drv_c15", n={"quick": 7000, "thorough": 200000}, stateful=True,
+    ctx.diff(area="forced", driver="drv_c15", n={"quick": 6000, "thorough": 200000}, stateful=True,
              trivial=_trivial, tagger=_tag, timeout=1500, theorem=thm, what=what)
+    mark("forced")
     # the same stream on a single P (cooperative scheduling: different interleavings of dispatcher, workers, submitter)
     if not ctx.replay and not ctx.violations:
         ctx.seed += 7777
-        ctx.diff(area="forced", driver="drv_c15", n={"quick": 2500, "thorough": 60000}, stateful=True,
+        ctx.diff(area="forced", driver="drv_c15", n={"quick": 2000, "thorough": 60000}, stateful=True,
                  trivial=_trivial, tagger=lambda l, o: "gomaxprocs1:" + _tag(l, o), timeout=1500, theorem=thm,
                  what=what + " [this stream ran with GOMAXPROCS=1]", extra_env={"GOMAXPROCS": "1"})
         ctx.seed -= 7777
+    mark("forced GOMAXPROCS=1")
     _tidy_replays(ctx)
     if ctx.replay:
         _replay_stress(ctx)
-    ctx.impl_oracle("stress", n={"quick": 480, "thorough": 8000}, label="random stress in child processes, event log "
-                    "checked: exactly once, Shutdown after all finished, running <= Workers, one worker => submission "
-                    "order, every panic reported once, no hang, no crash", timeout=3000)
+    ctx.impl_oracle("recovery", n={"quick": 132, "thorough": 1320}, label="errs.Recovery called directly: every panic value "
+                    "kind (and no panic) x recording / nil / panicking handler: nothing escapes, handler called exactly once "
+                    "per panic with a non-nil error", timeout=600)
+    _observations(ctx)
+    mark("recovery + probes")
+    _oracle_parallel(ctx, "stress", {"quick": 320, "thorough": 8000}, "random stress in child processes, event log "
+                     "checked: exactly once, Shutdown after all finished, running <= Workers, one worker => submission "
+                     "order, every panic reported once, no hang, no crash", shards=4)
+    mark("stress")
+
+
+def _oracle_parallel(ctx, area, n, label, shards):
+    """ctx.impl_oracle, with the lines run by several harness processes at once (every line is a child process anyway)"""
+    from concurrent.futures import ThreadPoolExecutor
+    if "harness" not in ctx.harness_bin or ctx.replay:
+        return
+    total = n[ctx.tier] if isinstance(n, dict) else n
+    lines = ctx.gen(area, ctx.seed * 7919 + 17, total)
+    chunks = [lines[i::shards] for i in range(shards)]
+    with ThreadPoolExecutor(max_workers=shards) as ex:
+        results = list(ex.map(lambda ch: ctx.run_impl(area, ch, timeout=3000) or [], chunks))
+    ctx.rules.append("area %s (%s): implementation-side oracle, no Lean model; counted separately" % (area, label))
+    bad = 0
+    for ch, outs in zip(chunks, results):
+        for l, o in zip(ch, outs):
+            ctx.extra["oracle_" + area] = ctx.extra.get("oracle_" + area, 0) + 1
+            if o.startswith("FAIL") or o.startswith("crash") or o == "panic":
+                known = ctx._known_match(area, l, [l])
+                if known:
+                    ctx.known_hits.append(known)
+                    continue
+                bad += 1
+                if bad <= 3:
+                    rep = {"property": ctx.id, "kind": "impl-oracle", "area": area, "harness": "harness", "ops": [l],
+                           "impl_outputs": [o], "concrete_failing_input": True, "note": label}
+                    ctx.violations.append({"kind": "impl-oracle", "what": "%s: %s on `%s`" % (area, o[:200], l[:160]),
+                                           "replay": ctx._write_replay(rep), "concrete": True})
+            elif len(ctx.samples) < 16 and ctx.extra["oracle_" + area] % 100 == 1:
+                ctx.samples.append({"area": area, "op": l[:200], "oracle": o[:200]})
+
+
+def _observations(ctx):
+    """situations outside the domain of the property (runtime.Goexit in a task, tasks that Submit to their own queue,
+    Depth(math.MaxInt)): transcribed into the evidence, never judged"""
+    if ctx.replay or "harness" not in ctx.harness_bin:
+        return
+    from concurrent.futures import ThreadPoolExecutor
+    lines = ctx.gen("probe", 1, 5)
+    with ThreadPoolExecutor(max_workers=5) as ex:
+        outs = [(o or ["no answer"])[0] for o in ex.map(lambda l: ctx.run_impl("probe", [l], timeout=120), lines)]
+    ctx.extra["observations"] = [o[4:] if o.startswith("obs ") else o for o in outs]
+    ctx.rules.append("area probe: %d situations outside the domain, transcribed only (coverage.observations)" % len(outs))
 
 
 def _replay_stress(ctx):
     import json
     rep = json.load(open(ctx.replay))
-    if rep.get("area") != "stress":
+    if rep.get("area") not in ("stress", "recovery"):
         return
-    outs = ctx.run_impl("stress", rep["ops"]) or []
+    outs = ctx.run_impl(rep["area"], rep["ops"]) or []
     for l, o in zip(rep["ops"], outs):
         ctx.evals += 1
         print("replay: `%s` -> %s" % (l, o))
